@@ -6,7 +6,7 @@ From Coq Require Import String.
 From Coq Require Import List NArith Arith ZArith.
 From Coq.Strings Require Import Byte.
 From Model Require Import Bytes Parser FrameParser Response Handshake Conn Digest Url.
-From Proofs Require Import HandshakeFacts GenTie ShapeFacts ReadyFacts DeliveryFacts RejectFacts DigestFacts DigestRun UrlFacts.
+From Proofs Require Import HandshakeFacts GenTie ShapeFacts ReadyFacts DeliveryFacts RejectFacts DigestFacts DigestRun UrlFacts ResponseFacts.
 Import ListNotations.
 Open Scope N_scope.
 
@@ -199,4 +199,58 @@ Proof.
   - exact I.
   - split; [left; reflexivity|constructor].
   - unfold free_of. repeat constructor; cbn; intros K; repeat (destruct K as [K|K]; [discriminate K|]); exact K.
+Qed.
+
+(* ---------- "however the reply's headers are ordered, cased, spaced" ---------- *)
+(* the reply parser inverts the rendering of a reply from a status code and a list of header lines (names in any letter
+   case, blanks and tabs around each value, names pairwise distinct up to case): the status is the one rendered, resp_get
+   returns the stripped value for every name asked in any letter case, and nothing for names that are not there *)
+Theorem C10_reply_parser_inverts_rendering : forall r, wf_reply r ->
+  r_status (parse_response (render_reply r)) = Some (rp_code r) /\
+  (forall h q, In h (rp_lines r) -> lower_s q = key_of h ->
+     resp_get (parse_response (render_reply r)) q = Some (strip (hl_value h))) /\
+  (forall q, ~ In (lower_s q) (map key_of (rp_lines r)) -> resp_get (parse_response (render_reply r)) q = None).
+Proof. exact parse_rendered_reply. Qed.
+Print Assumptions C10_reply_parser_inverts_rendering.
+
+(* hence the decision (Ready with which protocol and extensions / Rejected) is the same for any two renderings of the same
+   header set: whatever the order of the lines ... *)
+Theorem C10_decision_independent_of_header_order : forall accept r r', wf_reply r -> wf_reply r' ->
+  rp_code r = rp_code r' -> (forall h, In h (rp_lines r) <-> In h (rp_lines r')) ->
+  on_response accept (parse_response (render_reply r)) = on_response accept (parse_response (render_reply r')).
+Proof. exact decision_rendering_independent. Qed.
+Print Assumptions C10_decision_independent_of_header_order.
+
+(* ... the letter case of the names and the blanks around the values *)
+Theorem C10_decision_independent_of_spelling : forall accept r r', wf_reply r -> wf_reply r' ->
+  rp_code r = rp_code r' ->
+  (forall h, In h (rp_lines r) -> exists h', In h' (rp_lines r') /\ same_header h h') ->
+  (forall h', In h' (rp_lines r') -> exists h, In h (rp_lines r) /\ same_header h h') ->
+  on_response accept (parse_response (render_reply r)) = on_response accept (parse_response (render_reply r')).
+Proof. exact decision_spelling_independent. Qed.
+Print Assumptions C10_decision_independent_of_spelling.
+
+Example C10_rendering_nonvacuous :
+  let r := {| rp_version := str "HTTP/1.1"%string; rp_code := 101; rp_reason := str "Switching Protocols"%string;
+              rp_lines := [ {| hl_name := str "UPGRADE"%string; hl_lead := [SP; HT]; hl_value := str "WebSocket"%string; hl_trail := [SP] |};
+                            {| hl_name := str "sec-websocket-ACCEPT"%string; hl_lead := []; hl_value := str "s3pPLMBiTxaQ9kYGzzhZRbK+xOo="%string; hl_trail := [HT; HT] |} ] |} in
+  on_response (str "s3pPLMBiTxaQ9kYGzzhZRbK+xOo="%string) (parse_response (render_reply r)) = HReady None None.
+Proof. vm_compute. reflexivity. Qed.
+
+Ltac forall_list tac := repeat (apply Forall_cons; [tac|]); apply Forall_nil.
+Example C10_rendering_hypotheses_satisfiable :
+  wf_reply {| rp_version := str "HTTP/1.1"%string; rp_code := 101; rp_reason := str "Switching Protocols"%string;
+              rp_lines := [ {| hl_name := str "UPGRADE"%string; hl_lead := [SP; HT]; hl_value := str "WebSocket"%string; hl_trail := [SP] |};
+                            {| hl_name := str "sec-websocket-ACCEPT"%string; hl_lead := []; hl_value := str "s3pPLMBiTxaQ9kYGzzhZRbK+xOo="%string; hl_trail := [HT; HT] |} ] |}.
+Proof.
+  constructor; cbn [rp_version rp_code rp_reason rp_lines].
+  - split; [discriminate|]. vm_compute. forall_list reflexivity.
+  - vm_compute. discriminate.
+  - unfold no_crlf. vm_compute. forall_list ltac:(split; discriminate).
+  - forall_list ltac:(constructor; cbn [hl_name hl_lead hl_value hl_trail];
+      [split; [discriminate|vm_compute; forall_list ltac:(repeat split; try reflexivity; discriminate)]
+      | forall_list ltac:(first [left; reflexivity | right; reflexivity])
+      | vm_compute; forall_list ltac:(repeat split; try reflexivity; discriminate)
+      | forall_list ltac:(first [left; reflexivity | right; reflexivity])]).
+  - vm_compute. repeat constructor; cbn; intros K; repeat (destruct K as [K|K]; [discriminate K|]); exact K.
 Qed.
